@@ -23,6 +23,16 @@ SHAPES = {
     "direct": ("local f(n) = if n == 0 then 0 else 1 + f(n - 1); f({d})", True, False),
     "mutual": ("local f(n) = if n == 0 then 0 else 1 + g(n - 1), g(n) = if n == 0 then 0 else f(n - 1); f({d})", True, False),
     "accumulator": ("local f(n, a) = if n == 0 then a else f(n - 1, a + 1); f({d}, 0)", True, False),
+    # `tailstrict` outside a tail position must not make the call frameless
+    "tailstrict_in_or": ("local f(n) = n == 0 || f(n - 1) tailstrict; f({d})", True, False),
+    "tailstrict_in_and": ("local f(n) = n > 0 && f(n - 1) tailstrict; f({d})", True, False),
+    "tailstrict_in_plus": ("local f(n) = if n == 0 then 0 else 1 + f(n - 1) tailstrict; f({d})", True, False),
+    "tailstrict_in_array": ("local f(n) = if n == 0 then [] else [f(n - 1) tailstrict][0]; f({d})", True, False),
+    "tailstrict_in_arg": ("local id(x) = x, f(n) = if n == 0 then 0 else id(f(n - 1) tailstrict); f({d})", True, False),
+    "tailstrict_in_cond": ("local f(n) = if n == 0 then true else if f(n - 1) tailstrict then true else false; f({d})", True, False),
+    "tailstrict_in_local": ("local f(n) = if n == 0 then 0 else local r = f(n - 1) tailstrict; r + 1; f({d})", True, False),
+    "tailstrict_in_field": ("local f(n) = if n == 0 then {{v: 0}} else {{v: f(n - 1).v}}; f({d}).v", True, False),
+    "tailstrict_in_index": ("local f(n) = if n == 0 then [0] else [f(n - 1) tailstrict[0]]; f({d})[0]", True, False),
     "via_foldl": ("std.foldl(function(a, i) a + i, std.range(1, {d}), 0)", False, False),
     "via_foldr": ("std.foldr(function(i, a) a + i, std.range(1, {d}), 0)", False, False),
     "map_chain": ("local f(n) = if n == 0 then [0] else std.map(function(x) x + 1, f(n - 1)); f({d})", True, False),
